@@ -156,6 +156,19 @@ Theorem C10_converges_rs_one_point : forall raw p T tau,
 Proof. exact reported_one_point. Qed.
 Print Assumptions C10_converges_rs_one_point.
 
+(* supla_esp_gpio_relay_hi as modelled writes, of the shutter record, only the start / stop stamps (+ outputs, clock, GPIO log): the same
+   set the translator extracts from the source text ("start_time,stop_time") *)
+Theorem C10_relay_hi_writes_as_generated :
+  RELAY_HI_RS_WRITES = [115; 116; 97; 114; 116; 95; 116; 105; 109; 101; 44; 115; 116; 111; 112; 95; 116; 105; 109; 101] /\
+  forall k d u hi, C10.Model.last_time (relay_hi k d u hi) = C10.Model.last_time d /\ C10.Model.up_time (relay_hi k d u hi) = C10.Model.up_time d /\
+                   C10.Model.down_time (relay_hi k d u hi) = C10.Model.down_time d /\ C10.Model.pos (relay_hi k d u hi) = C10.Model.pos d /\
+                   C10.Model.tilt (relay_hi k d u hi) = C10.Model.tilt d /\ C10.Model.last_comm (relay_hi k d u hi) = C10.Model.last_comm d.
+Proof.
+  split; [reflexivity|]. intros k d u hi. unfold relay_hi.
+  destruct (andb (negb (if u then hi else up_on d)) (negb (if u then down_on d else hi))); repeat split; reflexivity.
+Qed.
+Print Assumptions C10_relay_hi_writes_as_generated.
+
 (* ---------- the same theorems for the bit-exact IEEE binary64 instance `fops`, without the hypothesis fp_ok (C09/FloatFacts.v) ---------- *)
 Theorem C10_bounded_power_counted_fops : forall up k tau d evs,
   wfk k -> 0 <= tau <= 1000000 -> Forall (fun e => 0 < fst e <= tau) evs ->
